@@ -345,7 +345,10 @@ func ruleC17(w *World, r *Report) {
 			r.Check((strings.Contains(v, "GetPendingValidators($0,$1)") || (strings.Contains(v, "$1.Get(") && strings.Contains(v, "PrefixPendingValidators"))) && strings.HasSuffix(v, ".Validators"), "C17.update/rotation.value", "BIND", fn, sfi.InstrPos(st), "new validator set = stored pending validators (in announced order)", "new validator set is "+clip(v)+", expected the stored pending validators")
 		}
 		r.Check(nRot == 1, "C17.update/rotation", "MUST-PASS", fn, w.Pos(fi.Fn.Pos()), "one validator-set replacement site", fmt.Sprintf("%d validator-set replacement sites", nRot))
-		for _, c := range fi.Calls(func(c *ssa.CallCommon) bool { f := c.StaticCallee(); return f != nil && f.Name() == "SetPendingValidators" }) {
+		for _, c := range fi.Calls(func(c *ssa.CallCommon) bool {
+			f := c.StaticCallee()
+			return f != nil && f.Name() == "SetPendingValidators"
+		}) {
 			okG := fi.HasFact(c.Block(), func(f Fact) bool {
 				return isZeroCmp(f, "==", func(t *Term) bool { return t.String() == "("+num+" % "+cs.String()+".Epoch)" })
 			})
